@@ -67,6 +67,81 @@ CONTRACTS['ChannelItem.__init__[verified]'] = dict(
     ref_fields=REF_FIELDS, requires=['not in_seq(self, parent._eflr_item_list)'],
     may_raise=['ValueError', 'AnyException'],
     ensures=[('registered', f'{ITEMS} == old({ITEMS}) + [self]'), ('dataset-name-kept', 'self._dataset_name == dataset_name'),
-             ('cast-dtype-kept', 'self._cast_dtype is cast_dtype')],
+             ('cast-dtype-kept', 'self._cast_dtype is cast_dtype'),
+             # the two facts the summary ChannelItem.__init__ hands to add_channel
+             ('name-kept', 'self.name == name'), ('belongs-to-the-set-it-was-given', 'self._parent is parent')],
     modifies=['self.*', 'self.*.parent_eflr', 'parent._eflr_item_list'], exc_modifies=['self.*', 'self.*.parent_eflr'],
     exc_ensures=[('rejected-channel-leaves-the-set-unchanged', UNCHANGED)])
+
+# scenario (client-level harness, /verif/scenarios/s_c20.py) over the REAL set and item classes: a rejected object consumes no copy
+# number and is not in the set; the accepted same-named objects are numbered 0, 1
+CONTRACTS['scenario_rejected_item_then_accepted_item'] = dict(
+    props=['C20', 'C07'], globals=GC, params={'name': 'str'}, returns=None, inline_all=True, must_return=True,
+    requires=['len(name) > 0'], may_raise=['ValueError', 'UnicodeEncodeError'],
+    ensures=[('the-bad-value-is-rejected', 'result[0] == True'),
+             ('copy-numbers-as-if-the-rejected-call-had-never-been-made', 'result[1] == 0 and result[2] == 1'),
+             ('only-the-accepted-objects-are-in-the-set', 'result[3] == 2')])
+
+CONTRACTS['scenario_identity_of_same_named_channels'] = dict(
+    props=['C07'], globals=GC, params={'name': 'str'}, returns=None, inline_all=True, must_return=True,
+    requires=['len(name) > 0'], may_raise=['ValueError', 'UnicodeEncodeError'],
+    ensures=[('same-named-channels-get-copy-numbers-0-and-1', 'result[0] == 0 and result[1] == 1'),
+             ('both-carry-the-reference-of-the-defining-origin', 'result[2] == result[4] and result[3] == result[4]'),
+             ('both-are-channels-of-the-logical-file', 'result[5] == 2')])
+CONTRACTS['scenario_rejected_add_then_valid_add'] = dict(
+    props=['C20'], globals=GC, params={'name': 'str'}, returns=None, inline_all=True, must_return=True,
+    requires=['len(name) > 0'], may_raise=['ValueError', 'UnicodeEncodeError'],
+    ensures=[('rejected', 'result[0] == True'), ('the-valid-call-is-numbered-as-if-the-rejected-one-had-never-been-made', 'result[1] == 0'),
+             ('only-the-accepted-object-is-registered', 'result[2] == 1')])
+
+_SC = dict(globals=GC, returns=None, inline_all=True, must_return=True, may_raise=['ValueError', 'UnicodeEncodeError'])
+CONTRACTS['scenario_identity_after_origin_back_fill'] = dict(
+    _SC, props=['C07', 'C12', 'C16'], params={'name': 'str'}, requires=['len(name) > 0'],
+    ensures=[('both-end-up-under-the-origin-that-exists', 'result[0] == result[4] and result[2] == result[4]'),
+             ('same-type-same-origin-same-name-need-different-copy-numbers', 'result[1] != result[3]')])
+CONTRACTS['scenario_rejected_origin_then_valid_origin'] = dict(
+    _SC, props=['C20', 'C07', 'C09'], params={'name': 'str'}, requires=['len(name) > 0'],
+    ensures=[('rejected', 'result[0] == True'),
+             ('waiting-objects-and-the-header-get-the-reference-of-the-origin-that-exists', 'result[1] == result[2] and result[3] == result[2]'),
+             ('only-the-accepted-origin-is-registered', 'result[4] == 1')])
+CONTRACTS['scenario_attrsetup_with_falsy_value'] = dict(
+    _SC, props=['C05', 'C13'], params={'name': 'str'}, requires=['len(name) > 0'],
+    ensures=[('a-zero-given-through-AttrSetup-dict-or-keyword-is-assigned-with-its-units',
+              "result[0] == 0 and result[1] == 'm' and result[2] == 0 and result[3] == 'm' and result[4] == 0")])
+CONTRACTS['scenario_representation_code_follows_the_current_value'] = dict(
+    _SC, props=['C05', 'C14'], params={'name': 'str'}, requires=['len(name) > 0'],
+    ensures=[('text-is-ASCII-then-an-integer-is-SLONG', 'result[0].value == 20 and result[1].value == 14')])
+CONTRACTS['scenario_first_origin_carries_the_header_id'] = dict(
+    _SC, props=['C09', 'C07'], params={'header_id': 'str'}, requires=['len(header_id) > 0 and len(header_id) <= 65'],
+    ensures=[('file-id-of-the-defining-origin-is-the-header-id', 'result[0] == result[1] and result[1] == header_id'),
+             ('the-first-origin-is-the-defining-origin', 'result[2] == True'),
+             ('an-explicit-reference-is-kept', 'result[3] == 5'),
+             ('a-later-origin-gets-another-reference-and-not-0', 'result[4] != result[3] and result[4] != 0')])
+CONTRACTS['scenario_names_in_and_outside_the_mode'] = dict(
+    _SC, props=['C17'], params={'name': 'str'}, requires=['len(name) > 0', 'not hc_name_ok(name)', 'not global_config.high_compat_mode'],
+    ensures=[('a-non-conforming-name-is-rejected-inside-the-mode-and-accepted-outside', 'result[0] == True and result[2] == 1'),
+             ('mode-off-again', 'result[1] == False')])
+CONTRACTS['scenario_rejected_channel_keeps_no_data'] = dict(
+    _SC, props=['C20', 'C18'], params={'name': 'str', 'arr': 'opq:ndarray'}, requires=['len(name) > 0'],
+    ensures=[('rejected', 'result[0] == True'), ('the-array-of-the-rejected-call-is-not-kept', 'result[1] == 0'),
+             ('the-retry-is-numbered-and-named-as-a-first-channel', 'result[2] == 0 and result[3] == name')])
+
+CONTRACTS['scenario_two_logical_files_with_their_own_sets'] = dict(
+    _SC, props=['C18', 'C07'], params={'name': 'str'}, requires=['len(name) > 0'],
+    ensures=[('each-logical-file-holds-exactly-its-own-channel', 'result[0] == 1 and result[1] == 1 and result[2] == True and result[3] == True'),
+             ('same-name-in-different-logical-files-does-not-bump-copy-numbers', 'result[4] == 0 and result[5] == 0'),
+             ('logical-files-in-creation-order', 'result[6] == True and result[7] == True'),
+             ('each-has-its-own-origin', 'result[8] == 1 and result[9] == 1')])
+CONTRACTS['scenario_rejected_frame_leaves_no_frame'] = dict(
+    _SC, props=['C20', 'C12'], params={'name': 'str'}, requires=['len(name) > 0'],
+    ensures=[('an-empty-channel-list-is-rejected', 'result[0] == True'),
+             ('only-the-accepted-frame-exists-numbered-0-and-lists-the-channel-given', 'result[1] == 1 and result[2] == 0 and result[3] == True')])
+CONTRACTS['scenario_values_assigned_at_creation_and_later'] = dict(
+    _SC, props=['C05'], params={'name': 'str', 'text': 'str'}, requires=['len(name) > 0'],
+    ensures=[('keywords-reach-their-own-attributes', "result[0] == text and result[1] == 'TM' and result[2] == 'GEN'"),
+             ('values-and-units-assigned-later-are-kept', "result[3] == text and result[4] == 3 and result[5] == 'm'"),
+             ('an-attribute-never-assigned-stays-absent', 'result[6] is None')])
+CONTRACTS['scenario_long_name_text_then_object'] = dict(
+    _SC, props=['C05', 'C07'], params={'name': 'str', 'text': 'str'}, requires=['len(name) > 0', 'len(text) > 0'],
+    ensures=[('a-text-long-name-is-ASCII-and-a-LONG-NAME-object-assigned-later-is-written-as-a-reference', 'result[0].value == 20 and result[1].value == 23'),
+             ('the-reference-is-the-object-the-user-passed', 'result[2] == True')])
